@@ -67,7 +67,7 @@ def canon(x, depth=0):
 
 
 QUERIES = ['objects_geometry', 'objects_light', 'objects_camera', 'shapes', 'triangleset', 'index0', 'str', 'len', 'inputlist', 'iterate',
-           'bound_triangleset', 'imagedata']
+           'bound_triangleset', 'imagedata', 'inputlist_use']
 
 
 def do_query(doc, q, r):
@@ -112,6 +112,14 @@ def do_query(doc, q, r):
         return [len(p) for g, p in prims] + [len(doc.geometries), len(doc.nodes)]
     if q == 'inputlist':
         return [sorted(p.getInputList().getList(), key=str) for g, p in prims]
+    if q == 'inputlist_use':
+        # the documented way to derive a new primitive: take the input list and add to it; the list is the caller's
+        out = []
+        for g, p in prims:
+            il = p.getInputList()
+            out.append(sorted(il.getList(), key=str))
+            il.addInput(r.randint(0, 9), r.choice(['TEXCOORD', 'COLOR', 'NORMAL']), '#made-up-%d' % r.randint(0, 99), str(r.randint(0, 9)))
+        return out
     if q == 'imagedata':
         out = []
         for i in doc.images:
